@@ -408,6 +408,15 @@ def growth_cases():
         data = struct.pack('<I', len(elems)) + b'\0' * 4 + elems
         return data, (lambda: marshal.unmarshal('a{sv}', data, 0, True))
 
+    def many_distinct_dict_entries(k):
+        # a dictionary as applications send them: every key different (fixed-width keys, so that the length doubles with k)
+        data = W.encode('a{us}', [{1000000 + i: 'v%06d' % i for i in range(k)}], 0, True)
+        return data, (lambda: marshal.unmarshal('a{us}', data, 0, True))
+
+    def many_distinct_string_keys(k):
+        data = W.encode('a{sv}', [{'key%06d' % i: W.Variant('y', 7) for i in range(k)}], 0, False)
+        return data, (lambda: marshal.unmarshal('a{sv}', data, 0, False))
+
     def lying_signature_length(k):
         # a variant whose inline signature claims a few characters but runs on for 4k more before its NUL, then an array body
         sig = ('a(' + '()' * k + 'y)').encode('ascii')
@@ -465,7 +474,8 @@ def growth_cases():
                              ('body signature sent as an array of strings', signature_as_string_array, 200),
                              ('variant whose inline signature runs past its declared length', lying_signature_length, 200),
                              ('message whose SIGNATURE header field runs past its declared length', lying_header_signature_length, 200),
-                             ('array of strings', many_strings, 200), ('array of dict entries with variant values', many_dict_entries, 100)):
+                             ('array of strings', many_strings, 200), ('array of dict entries with variant values', many_dict_entries, 100),
+                             ('dictionary of many distinct integer keys', many_distinct_dict_entries, 600), ('dictionary of many distinct string keys', many_distinct_string_keys, 600)):
         d1, f1 = fam(scale)
         d2, f2 = fam(2 * scale)
         s1, o1 = steps_of(f1, 600000)
@@ -500,7 +510,10 @@ def retention_case():
         out = []
         for k in range(n_):
             sig = ''.join(srnd.choice('ybnqiuxt') for _ in range(srnd.randrange(120, 250)))
-            raw = ref_message(4, 0, 1000 + k, [(1, '/o'), (2, 'a.b'), (3, 'S'), (8, sig)], sig, [0 if c != 'b' else False for c in sig], k % 2 == 0)
+            # ... and names never seen before: a long object path, a member, an interface, a sender of the peer's choosing
+            word = lambda n_: ''.join(srnd.choice('abcdefghijklmnopqrstuvwxyz') for _ in range(n_))
+            raw = ref_message(4, 0, 1000 + k, [(1, '/p/' + word(1500)), (2, 'a.' + word(200)), (3, word(200)), (7, ':1.' + word(100)), (8, sig)], sig,
+                              [0 if c != 'b' else False for c in sig], k % 2 == 0)
             out.append(raw if k % 2 else raw[:-3])          # every other one is cut short and rejected
         return out
     fresh = [fresh_signatures(40) for _ in range(4)]
